@@ -28,6 +28,12 @@ structure DS where
   bh : Nat := 0
   storedBh : Nat := 0
   ms : MS := MS.init 0
+  -- storage-items mode (ContractStorageBased): ids of the items whose current stored value is right / wrong
+  smode : Bool := false
+  nkv : Nat := 0
+  good : List Nat := []
+  bad : List Nat := []
+  lsk : Option Nat := none
 
 def DS.db (d : DS) : Hash → Option SNode := fun h => (d.table.getD h none)
 def DS.fuel (d : DS) : Nat := d.table.size + 2
@@ -44,7 +50,7 @@ def insertSorted (x : Nat) : List Nat → List Nat
   | y :: r => if x ≤ y then x :: y :: r else y :: insertSorted x r
 
 def showPool (d : DS) : String :=
-  if d.stage != .mpt then "-"
+  if d.stage != .mpt || d.smode then "-"
   else
     let ids := (poolHashes d.ms.pool).foldl (fun acc x => insertSorted x acc) []
     let sum := ids.foldl (fun s i => (s * 31 + i + 1) % 1000000007) 0
@@ -55,8 +61,20 @@ def obs (res : String) (d : DS) : String :=
   if res.isEmpty then base else res ++ " " ++ base
 
 /-- defineSyncStage (module.go:309-411) for the MPT-based mode. `none` = panic. -/
+def kvComplete (d : DS) : Bool :=
+  d.bad.isEmpty && (List.range d.nkv).all (fun i => d.good.contains i)
+
+def afterState (d : DS) : DS :=
+  let bh := max d.b0 d.storedBh
+  if bh ≥ d.p then { d with stage := .inactive, bh := bh } else { d with stage := .blocks, bh := bh }
+
 def defineStage (d : DS) : Option DS :=
-  if d.hh > d.p then
+  if d.smode then
+    if d.hh > d.p then
+      -- checkpoint: IntermediateRoot == Root iff the stored items are exactly the state
+      if d.lsk.isSome && kvComplete d then some (afterState d) else some { d with stage := .mpt }
+    else some { d with stage := .headers }
+  else if d.hh > d.p then
     match some (rebuild d.db d.fuel d.root d.ms) with
     | none => none
     | some ms =>
@@ -150,6 +168,27 @@ def step (d : DS) (ws : List String) : DS × String :=
         if i == d.p then ({ d1 with stage := .inactive }, obs "ok" { d1 with stage := .inactive })
         else (d1, obs s!"ok bh={i}" d1)
     | none => (d, "bad-op")
+  | ["smode", n] =>
+    match n.toNat? with
+    | some n => ({ d with smode := true, nkv := n }, "ok")
+    | none => (d, "bad-op")
+  | ["sroot"] => (d, obs "ok" d)
+  | "kvs" :: toks =>
+    if d.stage != .mpt then (d, obs "err" d)
+    else
+      let upd (d : DS) (t : String) : DS :=
+        let wrong := t.startsWith "w"
+        match (if wrong then (t.drop 1).toNat? else t.toNat?) with
+        | some i =>
+          if wrong then { d with good := d.good.filter (· != i), bad := if d.bad.contains i then d.bad else i :: d.bad, lsk := some i }
+          else { d with bad := d.bad.filter (· != i), good := if d.good.contains i then d.good else i :: d.good, lsk := some i }
+        | none => d
+      let d1 := toks.foldl upd d
+      let l := match d1.lsk with | some i => s!"lsk={i}" | none => "lsk=-"
+      if kvComplete d1 then
+        let d2 := { d1 with stage := .blocks, bh := max d1.b0 d1.storedBh }
+        (d2, obs s!"ok {l}" d2)
+      else (d1, obs s!"ok {l}" d1)
   | ["final"] => (d, "synced")
   | _ => (d, "bad-op")
 
